@@ -291,7 +291,7 @@ func c06Sponge(c *Ctx) {
 		for _, e := range ana.Exits(fn) {
 			if e.Panic {
 				if name == "Absorb" {
-					es := plainEdges(edgesMatching(b, "bin<!=>(load(faddr<direction>(p0)), 0)"))
+					es := plainEdges(edgesMatching(b, "bin<!=>(load(faddr<#2>(p0)), 0)"))
 					r.Check(mustPass(fn, e.Instr.Block(), es), "C06.error-before-effect.Absorb-panic", c.ipos(e.Instr), "Absorb panics only when called after a squeeze (direction != Absorbing), before any state change")
 				} else {
 					r.Viol("C06.error-before-effect.Squeeze-panic", c.ipos(e.Instr), "explicit panic in Squeeze")
@@ -318,11 +318,11 @@ func c06Sponge(c *Ctx) {
 							at := b.Of(st.Addr, st)
 							vt := b.Of(st.Val, st)
 							allOnes := vt.String() == "18446744073709551615" || vt.String() == "4294967295"
-							if bd, m := ana.Match("iaddr(faddr<l>(_), ind<+1>(0))", at); m && allOnes {
+							if bd, m := ana.Match("iaddr(faddr<#0>(_), ind<+1>(0))", at); m && allOnes {
 								_ = bd
 								stL = true
 							}
-							if _, m := ana.Match("iaddr(faddr<h>(_), ind<+1>(0))", at); m && allOnes {
+							if _, m := ana.Match("iaddr(faddr<#1>(_), ind<+1>(0))", at); m && allOnes {
 								stH = true
 							}
 						}
@@ -384,7 +384,7 @@ func c06Sponge(c *Ctx) {
 				}
 			}
 			squeezeBody := func(fn *ssa.Function, b *ana.Builder, body *ssa.BasicBlock) bool {
-				sq := plainEdges(edgesMatching(b, "bin<==>(load(faddr<direction>(_)), 1)"))
+				sq := plainEdges(edgesMatching(b, "bin<==>(load(faddr<#2>(_)), 1)"))
 				var trCall, outCall ssa.CallInstruction
 				var dirStore *ssa.Store
 				for _, ci := range ana.Calls(fn) {
@@ -399,7 +399,7 @@ func c06Sponge(c *Ctx) {
 				for _, blk := range fn.Blocks {
 					for _, ins := range blk.Instrs {
 						if st, ok := ins.(*ssa.Store); ok {
-							if matches("faddr<direction>(_)", b.Of(st.Addr, st)) && b.Of(st.Val, st).IsInt(1) {
+							if matches("faddr<#2>(_)", b.Of(st.Addr, st)) && b.Of(st.Val, st).IsInt(1) {
 								dirStore = st
 							}
 						}
@@ -411,7 +411,7 @@ func c06Sponge(c *Ctx) {
 				// (1) transform only when the sponge is already squeezing; (2) on that path transform always precedes out;
 				// (3) out is reached only when direction == Squeezing was read or has just been stored — in whichever
 				// way the two branches are arranged
-				sqEdges := edgesMatching(b, "bin<==>(load(faddr<direction>(_)), 1)")
+				sqEdges := edgesMatching(b, "bin<==>(load(faddr<#2>(_)), 1)")
 				ok1 := mustPass(fn, trCall.Block(), sq)
 				ok2 := !canReachBlockAvoiding(fn, sqEdges[0].To, trCall.Block(), outCall.Block())
 				removed := append([]ana.Edge{}, sq...)
@@ -475,7 +475,7 @@ func c06CloneReset(c *Ctx) {
 	valueTyped := true
 	var fields []string
 	for i := 0; i < st.NumFields(); i++ {
-		fields = append(fields, st.Field(i).Name())
+		fields = append(fields, ana.FieldName(st, i))
 		switch u := st.Field(i).Type().Underlying().(type) {
 		case *types.Array:
 			if _, ok := u.Elem().Underlying().(*types.Basic); !ok {
@@ -517,13 +517,13 @@ func c06CloneReset(c *Ctx) {
 				if st, ok := ins.(*ssa.Store); ok {
 					at, vt := b.Of(st.Addr, st), b.Of(st.Val, st)
 					ones := vt.String() == "18446744073709551615" || vt.String() == "4294967295"
-					if matches("iaddr(faddr<l>(_), ind<+1>(0))", at) && ones {
+					if matches("iaddr(faddr<#0>(_), ind<+1>(0))", at) && ones {
 						sl = mustPass(fn, blk, full)
 					}
-					if matches("iaddr(faddr<h>(_), ind<+1>(0))", at) && ones {
+					if matches("iaddr(faddr<#1>(_), ind<+1>(0))", at) && ones {
 						sh = mustPass(fn, blk, full)
 					}
-					if matches("faddr<direction>(_)", at) && vt.IsInt(0) {
+					if matches("faddr<#2>(_)", at) && vt.IsInt(0) {
 						sd = true
 					}
 				}
